@@ -15,6 +15,7 @@ import (
 	"path/filepath"
 	"runtime"
 	"sort"
+	"strings"
 	"sync"
 	"time"
 
@@ -32,7 +33,6 @@ import (
 	"github.com/pbenner/autodiff/algorithm/msqrtInv"
 	"github.com/pbenner/autodiff/algorithm/newton"
 	"github.com/pbenner/autodiff/algorithm/qrAlgorithm"
-	"github.com/pbenner/autodiff/algorithm/rprop"
 	"github.com/pbenner/autodiff/algorithm/svd"
 	"github.com/pbenner/autodiff/special"
 )
@@ -60,19 +60,24 @@ type TCase struct {
 	Routine string    `json:"routine"`
 	Family  string    `json:"family"`
 	N       int       `json:"n"`
-	Mat     []float64 `json:"mat,omitempty"` // row major n x n (matrix routines)
-	Obj     string    `json:"obj,omitempty"` // objective / oracle name (optimisers)
-	Cap     int       `json:"cap"`           // explicit cap handed to the routine (-1: none exists)
-	P       []float64 `json:"p,omitempty"`   // step sizes, eta, ...
+	Mat     []float64 `json:"mat,omitempty"`   // row major n x n (matrix routines)
+	Obj     string    `json:"obj,omitempty"`   // objective / oracle name (optimisers)
+	Cap     int       `json:"cap"`             // explicit cap handed to the routine (-1: none exists)
+	P       []float64 `json:"p,omitempty"`     // step sizes, eta, ...
 	Flags   []string  `json:"flags,omitempty"` // structural facts about the input, computed by the parent before the run (narrow finding matching)
+	X0      []float64 `json:"x0,omitempty"`    // start point (round 3: zero-partial stream); default 1.5 - i
+	Probe   int       `json:"probe,omitempty"` // > 0: deterministic fuel (passes of one inner retry loop) — classification re-run of a hung case
 }
 type TRes struct {
-	Case    TCase   `json:"case"`
-	Outcome string  `json:"outcome"` // returned | error | panic | rtpanic | deadline | crash
-	Iters   int     `json:"iters"`   // observed iterations (hook calls), -1 if not observable
-	Evals   int     `json:"evals"`   // objective evaluations, -1 if not observable
-	Secs    float64 `json:"secs"`
-	Msg     string  `json:"msg,omitempty"`
+	Case    TCase    `json:"case"`
+	Outcome string   `json:"outcome"` // returned | error | panic | rtpanic | deadline | crash
+	Iters   int      `json:"iters"`   // observed iterations (hook calls), -1 if not observable
+	Evals   int      `json:"evals"`   // objective evaluations, -1 if not observable
+	Secs    float64  `json:"secs"`
+	Msg     string   `json:"msg,omitempty"`
+	Prog    string   `json:"prog,omitempty"`  // rprop: first failure of the progress predicate of the inner loop (retry.go), "" if none
+	Inner   []string `json:"inner,omitempty"` // rprop: Coq text of inner-loop traces (ModelRetry replay)
+	MaxPass int      `json:"maxpass,omitempty"`
 }
 
 // ---------------------------------------------------------------- matrix families
@@ -441,6 +446,17 @@ func termCases(opts Opts) []TCase {
 			}
 		}
 	}
+	// round 3: the dense entry point of rprop on the old objective / constraint families, and the zero-partial stream
+	for _, ob := range objs {
+		for _, cp := range []int{1, 17} {
+			add(TCase{Routine: "rprop-dense", Family: ob, N: 2, Obj: ob, Cap: cp, P: []float64{0.1, 1.2, 0.5}})
+		}
+		add(TCase{Routine: "rprop-dense", Family: ob + "/eta1=1", N: 2, Obj: ob, Cap: 5, P: []float64{0.1, 1.2, 1.0}})
+	}
+	for _, fam := range []string{"constraints-never", "constraints-tiny-step", "constraints-x0-only", "constraints-x0-point"} {
+		add(TCase{Routine: "rprop-dense", Family: fam, N: 2, Obj: "quadratic", Cap: 5, P: []float64{0.1, 1.2, 0.5}})
+	}
+	zpCases(add)
 	add(TCase{Routine: "linesearch", Family: "constraints-never", N: 1, Obj: "quadratic", Cap: 20, P: []float64{1}})
 	add(TCase{Routine: "linesearch", Family: "constraints-small", N: 1, Obj: "quadratic", Cap: 20, P: []float64{2}})
 	for _, cp := range []int{0, 1, 7, 1000} {
@@ -545,8 +561,22 @@ func runTermCase(c TCase) (res TRes) {
 	res.Case = c
 	res.Iters, res.Evals = -1, -1
 	cnt := &counter{}
+	lg := &rpLog{}
+	cl := &consLog{probe: c.Probe, scalar: c.Routine == "linesearch"}
 	defer func() {
 		if r := recover(); r != nil {
+			if _, ok := r.(fuelStop); ok {
+				res.Outcome = "returned"
+				if c.Routine == "rprop" || c.Routine == "rprop-dense" {
+					res.Msg = lg.hangState()
+				} else {
+					res.Msg = cl.hangState()
+				}
+				if len(res.Msg) > 400 {
+					res.Msg = res.Msg[:400]
+				}
+				return
+			}
 			if _, ok := r.(runtime.Error); ok {
 				res.Outcome = "rtpanic"
 			} else {
@@ -571,12 +601,25 @@ func runTermCase(c TCase) (res TRes) {
 		v := ad.NullDenseFloat64Vector(c.N)
 		for i := range v {
 			v[i] = 1.5 - float64(i)
+			if len(c.X0) == c.N {
+				v[i] = c.X0[i]
+			}
 		}
 		return v
 	}
 	// constraints callback for the "constraints-*" families; the start point is x0()
 	ccalls := 0
+	var constr0 func(x ad.ConstVector) bool
 	constr := func(x ad.ConstVector) bool {
+		ok := constr0(x)
+		xs := make([]float64, x.Dim())
+		for i := range xs {
+			xs[i] = x.ConstAt(i).GetFloat64()
+		}
+		cl.on(xs, ok)
+		return ok
+	}
+	constr0 = func(x ad.ConstVector) bool {
 		ccalls++
 		switch c.Family {
 		case "constraints-never":
@@ -621,15 +664,14 @@ func runTermCase(c TCase) (res TRes) {
 	case "tip-view":
 		m := ad.NullDenseFloat64Matrix(c.N+1, c.N+1)
 		m.Slice(0, c.N, 0, c.N).(*ad.DenseFloat64Matrix).Tip()
-	case "rprop":
-		f := objective(c.Obj, cnt)
-		h := rprop.Hook{Value: func([]float64, []float64, ad.ConstVector, ad.ConstScalar) bool { cnt.iters++; return false }}
-		args := []interface{}{h, rprop.MaxIterations{Value: c.Cap}}
-		if hasC {
-			args = append(args, rprop.Constraints{Value: func(x ad.Vector) bool { return constr(x) }})
-		}
-		_, err = rprop.Run(f, x0(), c.P[0], []float64{c.P[1], c.P[2]}, args...)
+	case "rprop", "rprop-dense":
+		err = runRprop(c, cnt, lg, constr, hasC, objective(c.Obj, cnt), x0())
 		res.Iters, res.Evals = cnt.iters, cnt.evals
+		res.Prog, res.MaxPass = lg.state, lg.maxPass
+		lg.closeRec(err == nil)
+		for _, r := range lg.recs {
+			res.Inner = append(res.Inner, r.coq(lg.dense, lg.eta1))
+		}
 	case "bfgs":
 		f := objective(c.Obj, cnt)
 		h := bfgs.Hook{Value: func(x, g ad.ConstVector, y ad.ConstScalar) bool { cnt.iters++; return false }}
@@ -698,10 +740,19 @@ func runTermCase(c TCase) (res TRes) {
 		}
 		args := []interface{}{lineSearch.Parameters{Alpha1: 1, MaxEval: c.Cap}}
 		if len(c.P) > 0 && c.P[0] == 1 {
-			args = append(args, lineSearch.Constraints{Value: func(ad.ConstScalar) bool { cnt.iters++; return false }})
+			args = append(args, lineSearch.Constraints{Value: func(a ad.ConstScalar) bool {
+				cnt.iters++
+				cl.on([]float64{a.GetFloat64()}, false)
+				return false
+			}})
 		}
 		if len(c.P) > 0 && c.P[0] == 2 {
-			args = append(args, lineSearch.Constraints{Value: func(a ad.ConstScalar) bool { cnt.iters++; return a.GetFloat64() < 1e-3 }})
+			args = append(args, lineSearch.Constraints{Value: func(a ad.ConstScalar) bool {
+				cnt.iters++
+				ok := a.GetFloat64() < 1e-3
+				cl.on([]float64{a.GetFloat64()}, ok)
+				return ok
+			}})
 		}
 		_, err = lineSearch.Run(phi, ad.Float64Type, args...)
 		res.Evals = cnt.evals
@@ -791,6 +842,10 @@ func runTermCase(c TCase) (res TRes) {
 
 // ---------------------------------------------------------------- parent
 
+// routines whose non-returning runs are re-executed with fuel and classified by state (retry.go)
+var probeable = map[string]bool{"rprop": true, "rprop-dense": true, "linesearch": true, "bfgs": true,
+	"newton-root": true, "newton-min": true, "newton-crit": true, "adam": true}
+
 func deadlineFor(c TCase, tier string) time.Duration {
 	d := 1500 * time.Millisecond
 	if tier == "thorough" {
@@ -860,6 +915,31 @@ func runTermParent(opts Opts, cases []TCase, outName string) {
 				}
 				cf2 := c
 				cf2.Flags = append(append([]string{}, c.Flags...), fl)
+				r.Case = cf2
+			}
+			if probeable[c.Routine] && r.Outcome == "deadline" {
+				// classify the state the run spins in: deterministic fuel on the inner retry loop (retry.go)
+				pf := filepath.Join(opts.Out, fmt.Sprintf("%s.probe_%d.json", outName, i))
+				pc := c
+				pc.Probe = 30000
+				pb, _ := json.Marshal([]TCase{pc})
+				os.WriteFile(pf, pb, 0644)
+				ctx2, cancel2 := context.WithTimeout(context.Background(), 30*time.Second)
+				out2, err2 := exec.CommandContext(ctx2, self, "--extra", "termchild:0", "--replay", pf).Output()
+				cancel2()
+				var pr TRes
+				state := "hangstate:no-pass"
+				if err2 == nil && json.Unmarshal(out2, &pr) == nil {
+					if strings.HasPrefix(pr.Msg, "hangstate:") {
+						state = pr.Msg
+					} else {
+						state = "hangstate:probe-" + pr.Outcome
+					}
+				}
+				os.Remove(pf)
+				r.Msg = state
+				cf2 := c
+				cf2.Flags = append(append([]string{}, c.Flags...), strings.SplitN(state, " ", 2)[0])
 				r.Case = cf2
 			}
 			results[i] = r
